@@ -413,6 +413,8 @@ class HarnessA:
         self._reserving(t)
         try:
             ev = self.ad.rp(prio)
+        except HarnessCap:
+            raise           # a cap of the harness itself (e.g. the binding model's world cap reached from inside a store call): discard the run
         except Exception as e:
             t.state = "cancelled"
             self._in_reserve = None
@@ -448,6 +450,8 @@ class HarnessA:
         self._reserving(t)
         try:
             ev = self.ad.rg(prio, t.pred)
+        except HarnessCap:
+            raise           # a cap of the harness itself (e.g. the binding model's world cap reached from inside a store call): discard the run
         except Exception as e:
             t.state = "cancelled"
             self._in_reserve = None
@@ -487,6 +491,8 @@ class HarnessA:
         try:
             r = self.ad.put(ev, obj, d)
             exc = None
+        except HarnessCap:
+            raise           # a cap of the harness itself (e.g. the binding model's world cap reached from inside a store call): discard the run
         except Exception as e:
             r, exc = None, e
         if wf:
@@ -528,6 +534,8 @@ class HarnessA:
         try:
             y = self.ad.get(ev)
             exc = None
+        except HarnessCap:
+            raise           # a cap of the harness itself (e.g. the binding model's world cap reached from inside a store call): discard the run
         except Exception as e:
             y, exc = None, e
         if wf:
@@ -584,6 +592,8 @@ class HarnessA:
         try:
             r = self.ad.cp(ev) if kind == "p" else self.ad.cg(ev)
             exc = None
+        except HarnessCap:
+            raise           # a cap of the harness itself (e.g. the binding model's world cap reached from inside a store call): discard the run
         except Exception as e:
             r, exc = None, e
         if valid:
@@ -738,6 +748,8 @@ class HarnessA:
         inside_model = {r.name for r in self.items.values() if r.state == "inside"}
         try:
             objs = self.ad.inside()
+        except HarnessCap:
+            raise           # a cap of the harness itself (e.g. the binding model's world cap reached from inside a store call): discard the run
         except Exception as e:  # accessor itself broken
             self.violate("C02", "contents-accessor-raised:" + type(e).__name__, repr(e))
             objs = None
